@@ -1647,6 +1647,16 @@ impl<'a> Gen<'a> {
             83..=92 if depth > 0 => Ty::List(Box::new(self.simple_ty(0))),
             93..=99 if depth > 0 => {
                 // a function type for which a function exists
+                if self.env.preamble && self.rng.chance(1, 3) {
+                    // ... or an instance of the signature of a foreign function of the preamble
+                    let el = match self.rng.below(3) { 0 => Ty::Num, 1 => Ty::Str, _ => Ty::Bool };
+                    let l = Ty::List(Box::new(el.clone()));
+                    return match self.rng.below(5) {
+                        0 | 1 | 2 => Ty::Fun(vec![el, l.clone()], Box::new(l)),
+                        3 => Ty::Fun(vec![l.clone()], Box::new(l)),
+                        _ => Ty::Fun(vec![l], Box::new(Ty::Num)),
+                    };
+                }
                 let fs: Vec<FnSig> = self.env.funs.iter().filter(|f| !f.params.iter().any(|p| p.has_fun()) && !f.ret.has_fun()).cloned().collect();
                 if fs.is_empty() {
                     Ty::Num
@@ -1724,7 +1734,23 @@ impl<'a> Gen<'a> {
             Ty::Fun(ps, r) => {
                 let cands: Vec<FnSig> =
                     self.visible_funs().into_iter().filter(|f| &f.params == ps && f.ret == **r && !self.is_self(f)).collect();
-                if !cands.is_empty() {
+                // the foreign list/string functions of the preamble are function values too (instances of their
+                // generic signatures); arguments of a call through such a value keep their order
+                let mut foreign: Vec<&str> = Vec::new();
+                if self.env.preamble {
+                    match (ps.as_slice(), &**r) {
+                        ([x, Ty::List(el)], Ty::List(el2)) if **el == *x && el == el2 => foreign.extend(["cons", "cons_end"]),
+                        ([Ty::List(_)], Ty::Num) => foreign.push("len"),
+                        ([Ty::List(el)], t) if **el == *t => foreign.push("head"),
+                        ([Ty::List(el)], Ty::List(el2)) if el == el2 => foreign.push("tail"),
+                        ([Ty::Str], Ty::Num) => foreign.push("str_length"),
+                        _ => {}
+                    }
+                    foreign.retain(|n| self.var_ty(n).is_none() && !self.env.funs.iter().any(|f| f.name == *n));
+                }
+                if !foreign.is_empty() && (cands.is_empty() || self.rng.chance(1, 2)) {
+                    E::Var(foreign[self.rng.below(foreign.len())].to_string())
+                } else if !cands.is_empty() {
                     E::Var(cands[self.rng.below(cands.len())].name.clone())
                 } else if let Some(v) = vars.first() {
                     E::Var(v.clone())
